@@ -20,9 +20,11 @@ type svcCtxClient struct {
 	gate     chan struct{} // on-load of m0 waits for it when non-nil
 	gateHit  chan struct{}
 	gateOnce sync.Once
-	nmods    int
-	loads    int
-	builds   int
+	nmods     int
+	loads     int
+	builds    int
+	startOpen int      // on-start requests received whose reply has not been produced yet
+	barrier   []string // resolve/load requests that arrived while an on-start was open
 }
 
 func (c *svcCtxClient) delay() {
@@ -45,13 +47,23 @@ func (c *svcCtxClient) handle(p pkt) (interface{}, bool) {
 	case "on-start":
 		c.mu.Lock()
 		c.builds++
+		c.startOpen++
+		us := 1500 + c.rng.Intn(2500)
 		c.mu.Unlock()
-		c.delay()
+		time.Sleep(time.Duration(us) * time.Microsecond)
+		c.mu.Lock()
+		c.startOpen--
+		c.mu.Unlock()
 		return map[string]interface{}{"errors": []interface{}{}, "warnings": []interface{}{}}, true
 	case "on-resolve":
-		c.delay()
 		ids, _ := req["ids"].([]interface{})
 		path, _ := req["path"].(string)
+		c.mu.Lock()
+		if c.startOpen > 0 && len(c.barrier) < 5 {
+			c.barrier = append(c.barrier, fmt.Sprintf("on-resolve request for %q (service request id %d) arrived while the reply to on-start was still outstanding", path, p.id))
+		}
+		c.mu.Unlock()
+		c.delay()
 		resp := map[string]interface{}{"path": strings.TrimPrefix(strings.TrimPrefix(path, "v:"), "w:"), "namespace": "v"}
 		if len(ids) > 0 {
 			resp["id"] = ids[0]
@@ -62,6 +74,9 @@ func (c *svcCtxClient) handle(p pkt) (interface{}, bool) {
 		path, _ := req["path"].(string)
 		c.mu.Lock()
 		c.loads++
+		if c.startOpen > 0 && len(c.barrier) < 5 {
+			c.barrier = append(c.barrier, fmt.Sprintf("on-load request for %q (service request id %d) arrived while the reply to on-start was still outstanding", path, p.id))
+		}
 		gate := c.gate
 		b := c.builds
 		c.mu.Unlock()
@@ -91,7 +106,7 @@ func (c *svcCtxClient) handle(p pkt) (interface{}, bool) {
 
 func ctxBuildRequest(key int, tmp string) map[string]interface{} {
 	return map[string]interface{}{"command": "build", "key": key, "entries": []interface{}{[]interface{}{"", "v:m0"}},
-		"flags": []interface{}{"--bundle", "--format=esm", "--log-level=silent", "--outfile=out.js"}, "write": false,
+		"flags": []interface{}{"--bundle", "--format=esm", "--log-level=silent", "--outfile=out.js", "--inject:v:m7"}, "write": false,
 		"stdinContents": nil, "stdinResolveDir": nil, "absWorkingDir": tmp, "nodePaths": []interface{}{}, "context": true,
 		"plugins": []interface{}{map[string]interface{}{"name": "vfs", "onStart": true, "onEnd": true,
 			"onResolve": []interface{}{map[string]interface{}{"id": 1, "filter": "^[vw]:", "namespace": ""}},
@@ -402,6 +417,11 @@ func scenSvcContext(seed uint64, e *svcEnv, idx int, directed string) {
 		}
 	}
 	s.mu.Unlock()
+	cl.mu.Lock()
+	for _, msg := range cl.barrier {
+		e.st.Fail("plugin-callback-order-violated", desc, msg, "start callbacks finish before any resolve or load callback (inject path v:m7 is resolved and loaded through the plugin)")
+	}
+	cl.mu.Unlock()
 	for _, msg := range checkSvcCtxTranscript(tr, key, kinds) {
 		e.st.Fail("service-context-order-violated", desc, msg, "cancel/dispose answered after the running build ended; nothing after dispose; one build at a time")
 	}
